@@ -264,7 +264,7 @@ pub fn run_case(bins: &Binaries, case: &Case, reference: &[(String, Vec<u8>)], i
     }
     let stdout = out_thread.join().unwrap_or_default();
     let stderr = err_thread.join().unwrap_or_default();
-    let saved = out_dir.as_ref().map(|d| exec::read_dir_files(d));
+    let saved = out_dir.as_ref().map(|d| exec::read_problem_files(d));
 
     // what the interposer did inside the anthem process
     let anthem_pid = child.id();
